@@ -201,7 +201,14 @@ func (p *Program) runHarness(prop, obligation string, hints map[string]string, o
 		_ = json.Unmarshal(data, &res)
 	}
 	note := ""
-	if len(res) == 0 {
+	if len(res) == 0 && strings.Contains(buf.String(), "fatal error: concurrent map") {
+		// the Go runtime aborted the process: an unsynchronised map access in the library, hit by
+		// the concurrent phase of the oracle (the harness itself shares no map between goroutines)
+		res["found"] = true
+		res["observed"] = "the runtime aborted the test process: " + trunc(buf.String()[strings.Index(buf.String(), "fatal error: concurrent map"):], 1500)
+		res["expected"] = "concurrent calls of the exported functions return normally"
+		res["input"] = map[string]string{"schedule": "the concurrent phase of the " + prop + " oracle (goroutines calling the exported functions on their own inputs)"}
+	} else if len(res) == 0 {
 		note = "replay harness produced no result: " + trunc(buf.String(), 1500)
 		if prop == "C12" && strings.Contains(buf.String(), "DATA RACE") {
 			res["found"] = true
